@@ -836,4 +836,65 @@ theorem wfEq_dropBlock (m : Mesh) (h : (wfEq m) = true) (ct : String) : (wfEq (d
     unfold dropBlock at hb
     exact h3 b (List.mem_filter.mp hb).1
 
+
+/-! ### modifications of one block -/
+
+theorem uniform_of_width {α} (l : List (List α)) (w : Nat) (h : ∀ r ∈ l, r.length = w) : Uniform l := by
+  intro r hr
+  rw [h r hr]
+  cases l with
+  | nil => cases hr
+  | cons x xs => simp [h x List.mem_cons_self]
+
+theorem width_of_uniform {α} (l : List (List α)) (h : Uniform l) :
+    ∀ r ∈ l, r.length = (l.head?.map List.length).getD 0 := h
+
+theorem cellTypes_mapBlock (m : Mesh) (ct : String) (f : List (List Nat) → List (List Nat)) :
+    (mapBlock m ct f).cellTypes = m.cellTypes := by
+  unfold mapBlock Mesh.cellTypes
+  simp only [List.map_map]
+  apply List.map_congr_left
+  intro b _
+  simp only [Function.comp]
+  split <;> rfl
+
+theorem find_mapBlock_aux (ct : String) (f : List (List Nat) → List (List Nat)) :
+    ∀ (cells : List (String × List (List Nat))), ct ∈ cells.map (·.1) →
+      (match (cells.map fun b => if b.1 == ct then (b.1, f b.2) else b).find? (·.1 == ct) with
+        | some b => b.2 | none => []) =
+      f (match cells.find? (·.1 == ct) with | some b => b.2 | none => []) := by
+  intro cells
+  induction cells with
+  | nil => intro h; simp at h
+  | cons b bs ih =>
+    intro hct
+    by_cases hb : (b.1 == ct) = true
+    · simp only [List.map_cons, hb, if_true, List.find?_cons]
+    · have hb' : (b.1 == ct) = false := by simpa using hb
+      have hmem : ct ∈ bs.map (·.1) := by
+        rcases List.mem_map.mp hct with ⟨x, hx, hx1⟩
+        rcases List.mem_cons.mp hx with rfl | hx
+        · simp [hx1] at hb'
+        · exact List.mem_map.mpr ⟨x, hx, hx1⟩
+      simp only [List.map_cons, hb', Bool.false_eq_true, if_false, List.find?_cons]
+      exact ih hmem
+
+theorem cellsOf_mapBlock (m : Mesh) (ct : String) (f : List (List Nat) → List (List Nat))
+    (hct : ct ∈ m.cellTypes) : (mapBlock m ct f).cellsOf ct = f (m.cellsOf ct) := by
+  unfold mapBlock Mesh.cellsOf
+  exact find_mapBlock_aux ct f m.cells hct
+
+theorem wfEq_mapBlock (m : Mesh) (h : wfEq m = true) (ct : String) (f : List (List Nat) → List (List Nat))
+    (hf : ∀ rows, Uniform rows → (∃ b ∈ m.cells, b.2 = rows) → Uniform (f rows)) : wfEq (mapBlock m ct f) = true := by
+  rw [wfEq_iff] at h ⊢
+  obtain ⟨h1, h2, h3⟩ := h
+  refine ⟨h1, by rw [cellTypes_mapBlock]; exact h2, ?_⟩
+  intro b hb
+  unfold mapBlock at hb
+  simp only at hb
+  obtain ⟨b0, hb0, rfl⟩ := List.mem_map.mp hb
+  split
+  · exact hf b0.2 (h3 b0 hb0) ⟨b0, hb0, rfl⟩
+  · exact h3 b0 hb0
+
 end Fc.C03
